@@ -197,4 +197,9 @@ for _n in ("U.api.free", "U.api.create", "U.api.load", "U.api.crypt", "U.api.dec
     UNITS.append(_u)
 NDEBUG_UNITS = [u.name for u in UNITS if u.name.endswith("@ndebug")]
 
+# thorough tier: the cheap units are repeated on CBMC's default MiniSat back end (second solver, must agree)
+for _u in UNITS:
+    if _u.name.startswith(("U.gf.", "U.bd.", "U.ft.", "U.st.", "L.gf.", "L.st.", "L.pack.", "U.api.get", "U.api.is_", "U.api.store", "L.cmp.order", "L.cmpf.axioms", "U.dep.stdlib")):
+        _u.minisat_cross = True
+
 BY_NAME = {u.name: u for u in UNITS}
